@@ -109,6 +109,16 @@ def walk_elem_parts(fm, t):
        ('each', W, elem(files, j))                      - the j-th file of a loop over the files
        ('first', W, loop, condition, elem(files, j))    - the first file (in listing order) satisfying a condition:
                                                           next(f for f in files if cond) / return inside a scan"""
+    # the whole path handed out of a scan:  ite(exists(L, c), loopret(L, join(root, file_i)), <nothing found>)
+    if isinstance(t, Ite) and isinstance(t.c, Op) and t.c.op == "exists" and isinstance(t.a, Op) and t.a.op == "loopret" \
+            and t.a.args[0] == t.c.args[0]:
+        inner = walk_elem_parts(fm, t.a.args[1])
+        if inner is not None and inner[0] == "each":
+            return ("first", inner[1], t.c.args[0].v, t.c.args[1], inner[2], t.c)
+    if isinstance(t, Op) and t.op == "loopret":
+        inner = walk_elem_parts(fm, t.args[1])
+        if inner is not None and inner[0] == "each":
+            return ("first", inner[1], t.args[0].v, None, inner[2], None)
     if isinstance(t, Op) and t.op == "call:os.path.join" and len(t.args) == 2:
         a, b = t.args
         if isinstance(a, Op) and a.op == "getitem" and a.args[1] == Const(0) and first_walk_entry(a.args[0]) is not None:
